@@ -32,7 +32,8 @@ def queryObs (key : Bytes) (f : Gcs.Filter) (queries : String) : Option String :
   let h := Gcs.hashToRange (sip key) f.modulusNP
   (queries.splitOn ";").foldlM (fun acc q => do
     let items ← expandItems q
-    let cnt := (items.filter fun d => Gcs.matchLoop f.p (h d) f.n bits 0).length
+    let per := items.map fun d => Gcs.matchLoop f.p (h d) f.n bits 0
+    let cnt := s!"{(per.filter id).length}.{String.ofList (per.map fun b => if b then '1' else '0')}"
     let zip := if items.isEmpty then false else Gcs.zipLoop f.p f.n bits 0 (Gcs.sortU64 (items.map h))
     let hash := if items.isEmpty then false else items.any fun d => all.contains (h d)
     let any := if items.length ≥ f.n / 2 then hash else zip
@@ -43,7 +44,7 @@ def agreeProp (obs : List String) : String :=
   let bad := obs.filter fun o =>
     match o.splitOn "/" with
     | [cnt, z, h, a] =>
-      let want := if cnt == "0" then "0" else "1"
+      let want := if (cnt.splitOn ".").headD "" == "0" then "0" else "1"
       !(z == want && h == want && a == want)
     | _ => false
   if bad.isEmpty then "ok" else "violated:query strategies disagree"
